@@ -226,6 +226,12 @@ def step (st : DState) (line : String) : DState × String :=
     let sd := unhex seed
     let kp := Dil.keypair shake128 shake256 (shake256 sd 32)
     ({ st with dkeys := putK st.dkeys id (kp, sd) }, s!"ok pk={hx kp.pk} sk={hx kp.sk}")
+  | ["dl.unpacksk", sk] =>
+    let (rho, key, tr, s1, s2, t0) := Dil.unpackSk (unhex sk)
+    (st, s!"ok rho={hx rho} key={hx key} tr={hx tr} s1={" | ".intercalate (s1.map polyStr)} s2={" | ".intercalate (s2.map polyStr)} t0={" | ".intercalate (t0.map polyStr)}")
+  | ["dl.unpackpk", pk] =>
+    let (rho, t1) := Dil.unpackPk (unhex pk)
+    (st, s!"ok rho={hx rho} t1={" | ".intercalate (t1.map polyStr)}")
   | ["dl.filled", seed] =>   -- hypothesis `Expanded` of C03.verify_sign, evaluated on this seed
     (st, s!"ok {Dil.keygenFilled shake128 shake256 (shake256 (unhex seed) 32)}")
   | ["dl.newhex", hs] =>
